@@ -933,6 +933,76 @@ fn respond(line: &str) -> R {
             }
             Ok(join(vec![blocks_ser, grouping, node("GenImpls", "", families)]))
         }
+        // the main impl the macro generates for every family (items dropped), next to the
+        // trait definition (parameters with bounds and defaults, where-clause), the canonical
+        // blocks and the grouping
+        ["mainimpl", src] => {
+            let (trait_, blocks) = parse_blocks(src)?;
+            let canonical: Vec<_> = blocks
+                .into_iter()
+                .map(|mut block| {
+                    crate::param::resolve_non_predicate_params(&mut block);
+                    block
+                })
+                .collect();
+            let groups = parse::<ImplGroups>(src)?;
+            let blocks_ser = node(
+                "Blocks",
+                "",
+                canonical.iter().map(ser_item_impl).collect::<Result<Vec<_>, _>>()?,
+            );
+            let grouping = ser_grouping(&groups, &canonical)?;
+            let trait_ser = match &trait_ {
+                None => leaf("NoTrait", ""),
+                Some(trait_) => {
+                    let params = trait_
+                        .generics
+                        .params
+                        .iter()
+                        .map(|param| -> R {
+                            Ok(match param {
+                                syn::GenericParam::Lifetime(x) => node(
+                                    "GPLifetime",
+                                    &x.lifetime.ident.to_string(),
+                                    x.bounds.iter().map(ser_lifetime).collect::<Result<Vec<_>, _>>()?,
+                                ),
+                                syn::GenericParam::Type(x) => {
+                                    let mut kids = vec![ser_opt(x.default.as_ref(), ser_type)?];
+                                    for bound in &x.bounds {
+                                        kids.push(ser_bound(bound)?);
+                                    }
+                                    node("GPTypeD", &x.ident.to_string(), kids)
+                                }
+                                syn::GenericParam::Const(x) => node(
+                                    "GPConstD",
+                                    &x.ident.to_string(),
+                                    vec![ser_type(&x.ty)?, ser_opt(x.default.as_ref(), ser_expr)?],
+                                ),
+                            })
+                        })
+                        .collect::<Result<Vec<_>, _>>()?;
+                    let (_, preds) = ser_generics(&trait_.generics).or_else(|_| -> Result<(String, String), String> {
+                        // parameters with defaults are not serializable by ser_generics: only the where-clause is needed
+                        let mut generics = trait_.generics.clone();
+                        generics.params = syn::punctuated::Punctuated::new();
+                        ser_generics(&generics)
+                    })?;
+                    node(
+                        "Trait",
+                        &format!("{};{}", trait_.ident, trait_.unsafety.is_some()),
+                        vec![node("Generics", "", params), preds],
+                    )
+                }
+            };
+            let main_trait = groups.item_trait_;
+            let mut mains = Vec::new();
+            for (idx, group) in groups.impl_groups.values().enumerate() {
+                let mut main = main_trait::generate(main_trait.as_ref(), idx, group).ok_or("no main impl")?;
+                main.items.clear();
+                mains.push(ser_item_impl(&main)?);
+            }
+            Ok(join(vec![trait_ser, blocks_ser, grouping, node("MainImpls", "", mains)]))
+        }
         // serialize a world (ground impls of dispatch traits) and ground queries
         ["world", world, probes] => {
             let file = parse::<syn::File>(world)?;
